@@ -60,7 +60,13 @@ func (c *clientWrapper) Call(ctx context.Context, req client.Request, rsp interf
 		defer entry.Exit()
 		opts = append(opts, WithSelectOption(entry))
 		opts = append(opts, WithCallWrapper(entry))
-		return c.Client.Call(ctx, req, rsp, opts...)
+		// the rpc client runs call wrappers around the per-node call only: errors raised before a node is
+		// called (unknown service, context done, backoff) or by the retry hook are traced here
+		err := c.Client.Call(ctx, req, rsp, opts...)
+		if err != nil {
+			sentinel.TraceError(entry, err)
+		}
+		return err
 	}
 }
 
